@@ -44,6 +44,8 @@ def dstep (s : DSt) (toks : List String) : DSt × String :=
   | "mn" :: r => (s, EventsMaxN.nestedLine r)
   | "lk" :: r => (s, EventsSpec.checkLK r)
   | "lm" :: r => (s, EventsSpec.checkLM r)
+  | "uu" :: r => (s, EventsSpec.checkUU r)
+  | "vd" :: r => (s, EventsSpec.checkVD r)
   | "vc" :: _ => (s, "begun")   -- concurrent Listener creation: the round follows as `vn` lines
   | _ => (s, "bad-op")
 
